@@ -513,6 +513,14 @@ def oracle_rbe3(case, R):
     dep = case["dep"]
     kd = gidx[dep["gid"]]
     ddof = [(dep["gid"], d) for d in _digits(dep["dof"])]
+    # the component digits of the dependent grid may be written in any order (312456): rows and columns of the
+    # result follow the USET table, not the way the digits were written
+    dep_call = dep["dof"]
+    if case.get("dep_digit_seed") is not None and len(str(dep["dof"])) > 1:
+        dg = list(str(dep["dof"]))
+        pr = util.rng_of(case["dep_digit_seed"]).permutation(len(dg))
+        dep_call = int("".join(dg[i] for i in pr))
+        R.label("depdof:digits_reordered" if dep_call != dep["dof"] else "depdof:ascending")
     idof, wts = [], []
     ind_list = []
     for grp in case["groups"]:
@@ -590,6 +598,22 @@ def oracle_rbe3(case, R):
     unit = EPS * condt
     tol = RBE3_FACTOR * unit
     got = n2p.formrbe3(uset, dep["gid"], dep["dof"], ind_list, um_list)
+    if dep_call != dep["dof"]:
+        # same element with the component digits of the dependent grid written in another order: without a UM
+        # list the rows follow the digits as written (observed behaviour; the docstring speaks of USET order), with a
+        # UM list rows and columns are m-set / n-set DOF in USET order and do not depend on how the digits were written
+        gp = np.asarray(n2p.formrbe3(uset, dep["gid"], dep_call, ind_list, um_list))
+        ga = np.asarray(got)
+        if um_list is None:
+            asc = sorted(str(dep["dof"]))
+            rows = [asc.index(ch) for ch in str(dep_call)]
+            want_p = ga[rows]
+        else:
+            want_p = ga
+        okp = gp.shape == want_p.shape and np.allclose(gp, want_p, rtol=1e-9, atol=1e-9 * max(1.0, np.abs(ga).max()))
+        R.check(okp, "rbe3_depends_on_digit_order_of_dependent_dof",
+                f"DOF_dep={dep_call} vs {dep['dof']} um={um_list}: max diff "
+                f"{np.abs(gp - want_p).max() if gp.shape == want_p.shape else 'shape'}")
     if not R.check(got.shape == want.shape, "rbe3_shape", f"{got.shape} vs {want.shape}"):
         return
     # exact reproduction of the six rigid motions, taken about an arbitrary point
@@ -864,6 +888,7 @@ def rbe3_cases(draw, um_first=False):
     depdof = draw(st.sampled_from([123456, 123456, 123, 12, 3, 456, 1346, 25]))
     case = {"systems": systems, "grids": grids, "order": draw(st.permutations(range(len(systems)))),
             "spoints": draw(spoint_lists(len(grids))),
+            "dep_digit_seed": draw(st.one_of(st.none(), st.integers(0, 10 ** 6))),
             "dep": {"gid": grids[kd]["gid"], "dof": depdof}, "groups": list(groups),
             "rbref": draw(point_in(cs.RECT)), "wscale": draw(st.sampled_from([0.25, 3.0, 7.5])),
             "um": None}
